@@ -1,6 +1,7 @@
 package main
 
 import (
+	"fmt"
 	"go/ast"
 	"math/big"
 )
@@ -20,8 +21,78 @@ func c19KeyedLit(p *Pkg, fn *ast.FuncDecl, key string) *big.Int {
 	return Unanimous(key, out, 1)
 }
 
+// c19TypeSpec finds `type name ...` in pkg.
+func c19TypeSpec(p *Pkg, name string) ast.Expr {
+	for _, f := range p.Files {
+		for _, d := range f.Decls {
+			if gd, ok := d.(*ast.GenDecl); ok {
+				for _, sp := range gd.Specs {
+					if ts, ok := sp.(*ast.TypeSpec); ok && ts.Name.Name == name {
+						return ts.Type
+					}
+				}
+			}
+		}
+	}
+	panic("type " + name + " not found in " + p.Dir)
+}
+
+// c19SizeAlign: size and alignment (amd64/arm64 rules) of the field types that
+// occur in raftpb.Entry.
+func c19SizeAlign(p *Pkg, e ast.Expr) (int64, int64) {
+	switch t := e.(type) {
+	case *ast.Ident:
+		switch t.Name {
+		case "uint64", "int64", "uint", "int", "uintptr":
+			return 8, 8
+		case "uint32", "int32":
+			return 4, 4
+		case "uint16", "int16":
+			return 2, 2
+		case "uint8", "int8", "byte", "bool":
+			return 1, 1
+		case "string":
+			return 16, 8
+		}
+		return c19SizeAlign(p, c19TypeSpec(p, t.Name))
+	case *ast.ArrayType:
+		if t.Len == nil {
+			return 24, 8
+		}
+	}
+	panic(fmt.Sprintf("unsupported field type %T", e))
+}
+
+// unsafe.Sizeof(pb.Entry{}) recomputed from the struct declaration: the per-entry
+// constant of pb.GetEntrySliceInMemSize (what inMemory reports to the rate limiter)
+func c19EntryStructSize() *big.Int {
+	p := loadPkg("raftpb")
+	st, ok := c19TypeSpec(p, "Entry").(*ast.StructType)
+	if !ok {
+		panic("raftpb.Entry is not a struct")
+	}
+	var off, maxAlign int64 = 0, 1
+	for _, f := range st.Fields.List {
+		sz, al := c19SizeAlign(p, f.Type)
+		n := len(f.Names)
+		if n == 0 {
+			n = 1
+		}
+		for i := 0; i < n; i++ {
+			off = (off + al - 1) / al * al
+			off += sz
+		}
+		if al > maxAlign {
+			maxAlign = al
+		}
+	}
+	off = (off + maxAlign - 1) / maxAlign * maxAlign
+	return big.NewInt(off)
+}
+
 func init() {
 	register(&Unit{Name: "C19", Facts: []Fact{
+		NFact("c19_entry_struct_size", c19EntryStructSize),
 		// Entry.SizeUpperLimit() = EntryNonCmdFieldsSize + len(Cmd): the unit of limitSize / maxSize
 		NFact("c19_entry_non_cmd_fields_size", func() *big.Int {
 			return loadPkg("internal/settings").Const("EntryNonCmdFieldsSize")
